@@ -451,6 +451,9 @@ def run_scenario(sc, tape_mode="log", script=None, keep_raw=False, provider=None
     imp_obj.impute = impute
 
     st_obj = find_part(ex, BaseStorage, "_storage")
+    if st_obj is None:
+        # every explainer owns a storage (the supplied one or a default): one without is not a usable explainer
+        raise ConstructError("the constructed explainer holds no storage object")
     orig_update = st_obj.update
 
     def update(*a, **k):
